@@ -2,6 +2,8 @@ package props
 
 import (
 	"fmt"
+	"math"
+	"math/big"
 	"strings"
 
 	"github.com/osteele/liquid"
@@ -229,6 +231,42 @@ func runC09(c *core.Ctx) {
 						c.Violate("andor-nested|"+place+"|"+resClass(res), "and/or must treat an operand reached through a property or index, whatever its Go representation, as its value: exactly nil and false are false",
 							map[string]any{"condition": cond, "operand": o.name, "expected": want, "observed": res.Brief()})
 					}
+				}
+			}
+		}
+	}
+	// ---- integers at the edges of the signed and unsigned ranges compare by numeric value ---------------------------
+	if c.Shard == 4%c.NShards && c.Begin("integer-extremes") {
+		type iv struct {
+			g any
+			v *big.Int
+		}
+		bi := func(s string) *big.Int { x, _ := new(big.Int).SetString(s, 10); return x }
+		vals := []iv{{uint64(math.MaxUint64), bi("18446744073709551615")}, {uint64(1) << 63, bi("9223372036854775808")}, {uint64(math.MaxInt64), bi("9223372036854775807")}, {uint(0), bi("0")},
+			{uint8(255), bi("255")}, {uint16(7), bi("7")}, {uint32(math.MaxUint32), bi("4294967295")}, {uintptr(5), bi("5")}, {gen.NUint(7), bi("7")},
+			{-1, bi("-1")}, {0, bi("0")}, {5, bi("5")}, {int64(math.MaxInt64), bi("9223372036854775807")}, {int64(math.MinInt64), bi("-9223372036854775808")}, {int8(-7), bi("-7")}, {7, bi("7")}, {255, bi("255")},
+			{int32(-1), bi("-1")}, {gen.NInt(-7), bi("-7")}}
+		ops := []string{"==", "!=", "<", ">", "<=", ">="}
+		for _, a := range vals {
+			for _, b := range vals {
+				cmp := a.v.Cmp(b.v)
+				want := []bool{cmp == 0, cmp != 0, cmp < 0, cmp > 0, cmp <= 0, cmp >= 0}
+				for k, op := range ops {
+					res := core.Run(e, "{% if a "+op+" b %}true{% else %}false{% endif %},{{ a "+op+" b }}", map[string]any{"a": a.g, "b": b.g})
+					c.Eval(1)
+					c.Obs("integer_extreme_cases", 1)
+					c.Distinct("intext", gen.Describe(a.g), op, gen.Describe(b.g))
+					if w := fmt.Sprint(want[k]); !res.OK() || res.Out != w+","+w {
+						c.Violate("integer-extremes|"+op, "integers of every width and signedness compare by numeric value (an unsigned value above the largest int64 is larger than every signed one)",
+							map[string]any{"a": gen.Describe(a.g), "b": gen.Describe(b.g), "operator": op, "expected": w, "observed": res.Brief()})
+					}
+				}
+				// contains on an array holding the value
+				res := core.Run(e, "{% if l contains b %}true{% else %}false{% endif %}", map[string]any{"l": []any{"x", a.g}, "b": b.g})
+				c.Eval(1)
+				if w := fmt.Sprint(cmp == 0); !res.OK() || res.Out != w {
+					c.Violate("integer-extremes|contains", "array contains uses ==: integers of every width and signedness compare by numeric value",
+						map[string]any{"array_element": gen.Describe(a.g), "needle": gen.Describe(b.g), "expected": w, "observed": res.Brief()})
 				}
 			}
 		}
